@@ -1,5 +1,5 @@
 (* C09 — concurrent_queue / concurrent_bounded_queue.  Property theorems only; proofs live in QueueProofs.v. *)
-From OTV Require Import Lib.Tac Params QueueModel QueueProofs.
+From OTV Require Import Lib.Tac Lib.Conc Params QueueModel QueueProofs BqModel BqProofs.
 Local Open Scope Z_scope.
 
 (* n_queue consecutive tickets are spread over n_queue distinct lanes (phi is invertible modulo n_queue) *)
@@ -46,3 +46,51 @@ Theorem bqueue_abort_refuted_item_overtaken :
     q_out s = [(2, 1, 200)] /\ nth_error (q_cells s) 0 = Some (100, Published) /\ ~ In 0 (map snd (q_poppers s)).
 Proof. exact abort_loses_item_proof. Qed.
 Print Assumptions bqueue_abort_refuted_item_overtaken.
+
+(* ---- concurrent_bounded_queue: the try_push / try_pop ticket-claim loops (BqModel) ----
+   For ANY capacity >= 0, ANY number of threads, ANY scripts of try_push / try_pop and ANY interleaving of
+   their accesses to head_counter / tail_counter: *)
+
+(* the number of claimed-but-unconsumed tickets never exceeds the capacity and never goes negative *)
+Theorem bqueue_capacity_never_exceeded : forall cap scripts c,
+  0 <= cap -> reach btstep (binit cap scripts) c ->
+  b_head (fst c) <= b_tail (fst c) /\ b_tail (fst c) - b_head (fst c) <= cap.
+Proof.
+  intros cap scripts c Hc Hr.
+  assert (HI := binv_reach _ _ _ Hc Hr). destruct HI as ((H1 & H2) & _).
+  assert (Hcap : b_cap (fst c) = cap).
+  { clear H1 H2. induction Hr as [|c1 i c2 ev Hr IH Hs]; [reflexivity|].
+    assert (HI := binv_reach _ _ _ Hc Hr). destruct HI as (Hg & HF).
+    unfold step_at in Hs. destruct (nth_error (snd c1) i) as [l|] eqn:En; [|discriminate].
+    destruct (btstep i (fst c1) l) as [[[g' l'] e]|] eqn:Et; [|discriminate]. inv Hs.
+    destruct (btstep_ok _ _ _ _ _ _ Hg (Forall_nth_error _ _ _ _ HF En) Et) as ((_ & _ & Hm) & _).
+    cbn. congruence. }
+  rewrite <- Hcap. auto.
+Qed.
+Print Assumptions bqueue_capacity_never_exceeded.
+
+(* try_push reports "full" only at an access at which capacity-many tickets are outstanding, try_pop reports
+   "empty" only at an access at which none is; a successful try_push / try_pop takes exactly the next ticket
+   (tickets are handed out once each, in order) while the queue is not full / not empty *)
+Theorem bqueue_try_ops_decide_on_current_counters : forall cap scripts c i c' ev,
+  0 <= cap -> reach btstep (binit cap scripts) c -> step_at btstep c i = Some (c', ev) ->
+  let g := fst c in let g' := fst c' in
+  (forall k, note_of ev = Some (OTryPush, 0, k) -> b_tail g - b_head g >= b_cap g) /\
+  (forall k, note_of ev = Some (OTryPop, 0, k) -> b_tail g - b_head g <= 0) /\
+  (forall k, note_of ev = Some (OTryPush, 1, k) ->
+     k = b_tail g /\ b_tail g' = k + 1 /\ b_head g' = b_head g /\ b_tail g - b_head g < b_cap g) /\
+  (forall k, note_of ev = Some (OTryPop, 1, k) ->
+     k = b_head g /\ b_head g' = k + 1 /\ b_tail g' = b_tail g /\ b_head g < b_tail g).
+Proof. intros. eapply step_decisions; eauto. eapply binv_reach; eauto. Qed.
+Print Assumptions bqueue_try_ops_decide_on_current_counters.
+
+Theorem bqueue_run_is_reachable : forall cap scripts sched c evs,
+  run btstep (binit cap scripts) sched = (c, evs) -> reach btstep (binit cap scripts) c.
+Proof. intros. eapply run_reach; eauto. Qed.
+Print Assumptions bqueue_run_is_reachable.
+
+(* non-vacuity: capacity 1, two pushers and a popper: a try_push is refused while the single slot is taken *)
+Example bq_full_is_reachable :
+  let '(_, evs) := run btstep (binit 1 [[3]; [3]; [2]]) [0; 0; 0; 1; 1]%nat in
+  note_of (skipn 35 evs) = Some (OTryPush, 0, -1).
+Proof. vm_compute. reflexivity. Qed.
